@@ -653,3 +653,118 @@ func spliceInLoopFindings(fn *ssa.Function) (bad []ssa.Instruction) {
 	}
 	return
 }
+
+// headConsumedFindings: a stage that peeks the head of an incoming port and finds
+// a message must dequeue it before the iteration ends, unless it gives up because
+// the next queue cannot accept (a false CanPush/CanAccept/CanSend/CanDeliver test).
+// Leaving the head in place for a reason internal to the stage — a full table that
+// only later arrivals on the same port could drain — blocks everything behind it.
+func headConsumedFindings(fn *ssa.Function) (checked int, bad []ssa.Instruction) {
+	loops := loopsOf(fn)
+	isExcuse := func(cond ssa.Value) (bool, bool) { // (is Can* test, negated)
+		neg := false
+		for {
+			if u, ok := cond.(*ssa.UnOp); ok && u.Op == token.NOT {
+				cond, neg = u.X, !neg
+				continue
+			}
+			break
+		}
+		call, ok := cond.(*ssa.Call)
+		if !ok {
+			return false, false
+		}
+		n, _ := calleeNamePkg(call)
+		switch n {
+		case "CanPush", "CanAccept", "CanSend", "CanDeliver":
+			return true, neg
+		}
+		return false, false
+	}
+	for _, b := range fn.Blocks {
+		for _, in := range b.Instrs {
+			call, ok := in.(*ssa.Call)
+			if !ok || !call.Common().IsInvoke() || call.Common().Method.Name() != "PeekIncoming" {
+				continue
+			}
+			port := VKey(call.Common().Value)
+			// the branch on "peeked == nil"
+			var start *ssa.BasicBlock
+			for _, ref := range *call.Referrers() {
+				bo, isBO := ref.(*ssa.BinOp)
+				if !isBO || !(isNilConst(bo.X) || isNilConst(bo.Y)) {
+					continue
+				}
+				for _, r2 := range *bo.Referrers() {
+					if ifi, isIf := r2.(*ssa.If); isIf {
+						if bo.Op == token.EQL {
+							start = ifi.Block().Succs[1]
+						} else {
+							start = ifi.Block().Succs[0]
+						}
+					}
+				}
+			}
+			if start == nil {
+				continue
+			}
+			checked++
+			l := innermost(loops, b)
+			type st struct {
+				blk     *ssa.BasicBlock
+				excused bool
+			}
+			seen := map[st]bool{}
+			var leak bool
+			var walk func(s st)
+			walk = func(s st) {
+				if seen[s] || leak {
+					return
+				}
+				seen[s] = true
+				for _, x := range s.blk.Instrs {
+					if c2, isCall := x.(ssa.CallInstruction); isCall && c2.Common().IsInvoke() && c2.Common().Method.Name() == "RetrieveIncoming" && VKey(c2.Common().Value) == port {
+						return // consumed
+					}
+					if _, isPanic := x.(*ssa.Panic); isPanic {
+						return
+					}
+					if _, isRet := x.(*ssa.Return); isRet {
+						if !s.excused {
+							leak = true
+						}
+						return
+					}
+				}
+				ifi, isIf := s.blk.Instrs[len(s.blk.Instrs)-1].(*ssa.If)
+				for i, nx := range s.blk.Succs {
+					ex := s.excused
+					if isIf {
+						if isCan, neg := isExcuse(ifi.Cond); isCan {
+							// the edge on which the Can* test is false
+							falseEdge := 1
+							if neg {
+								falseEdge = 0
+							}
+							if i == falseEdge {
+								ex = true
+							}
+						}
+					}
+					if l != nil && (nx == l.header || !l.blocks[nx]) {
+						if !ex {
+							leak = true
+						}
+						continue
+					}
+					walk(st{nx, ex})
+				}
+			}
+			walk(st{start, false})
+			if leak {
+				bad = append(bad, in)
+			}
+		}
+	}
+	return
+}
